@@ -79,20 +79,41 @@ func runC09(p *Program, e *Engine, r *Result, tier string) {
 	}
 	not := func(l Lit) Lit { l.Neg = !l.Neg; return l }
 	c09Cleanup(a, tf, hctx, entry, *watchLit, entryPath, maskSubj, ops, "C09.1")
-	// (2) MOVE_SELF
+	// (2) MOVE_SELF: the handler (directly or through a helper) calls a function that the API Remove also uses and that
+	// reaches both table deletes and inotify_rm_watch
 	rmAPI := ro.API["Remove"]
-	apiCallees := map[*ssa.Function]bool{}
+	removal := map[*ssa.Function]bool{}
 	if rmAPI != nil {
-		for _, v := range a.walk(rmAPI).Visits {
-			if call, ok := v.Instr.(*ssa.Call); ok && v.Ctx.Parent == nil {
-				if cal := v.Ctx.calleeOf(&call.Call); cal != nil && a.P.inMain(cal) {
-					apiCallees[cal] = true
+		rw := a.walk(rmAPI)
+		for _, v := range rw.Visits {
+			call, ok := v.Instr.(*ssa.Call)
+			if !ok {
+				continue
+			}
+			cal := v.Ctx.calleeOf(&call.Call)
+			if cal == nil || !a.P.inMain(cal) {
+				continue
+			}
+			reachesRm, dels := false, map[*types.Var]bool{}
+			for _, u := range rw.Visits {
+				if !u.Ctx.inChain(cal) {
+					continue
 				}
+				if c2 := visitCallee(u); c2 != nil && c2.Name() == "InotifyRmWatch" {
+					reachesRm = true
+				}
+				if args, isDel := isBuiltinCall(u.Instr, "delete"); isDel {
+					if f := u.Ctx.fieldOfValue(args[0]); f == tf.wdTable || f == tf.pathTable {
+						dels[f] = true
+					}
+				}
+			}
+			if reachesRm && len(dels) == 2 {
+				removal[cal] = true
 			}
 		}
 	}
 	recLit := Lit{A: &Atom{Kind: AkBool, Subj: entryPath + ".recurse"}}
-	// find the actual recurse atom used (subject may be spelled through the same path)
 	for _, v := range hv {
 		for _, c := range v.Cond {
 			for _, l := range c {
@@ -106,29 +127,21 @@ func runC09(p *Program, e *Engine, r *Result, tier string) {
 	found := false
 	for _, v := range hv {
 		call, ok := v.Instr.(*ssa.Call)
-		if !ok || v.Ctx != hctx {
+		if !ok {
 			continue
 		}
 		cal := v.Ctx.calleeOf(&call.Call)
-		if cal == nil || !apiCallees[cal] {
+		if cal == nil || !removal[cal] {
 			continue
 		}
-		// reaches inotify_rm_watch and both table deletes?
-		reachesRm, reachesDel := false, 0
-		for _, u := range hv {
-			if !u.Ctx.inChain(cal) {
-				continue
-			}
-			if c2 := visitCallee(u); c2 != nil && c2.Name() == "InotifyRmWatch" {
-				reachesRm = true
-			}
-			if args, isDel := isBuiltinCall(u.Instr, "delete"); isDel {
-				if f := u.Ctx.fieldOfValue(args[0]); f == tf.wdTable || f == tf.pathTable {
-					reachesDel++
-				}
+		// outermost removal call only (a removal function may call another)
+		nested := false
+		for c := v.Ctx; c != nil && c != hctx; c = c.Parent {
+			if removal[c.Fn] {
+				nested = true
 			}
 		}
-		if !reachesRm || reachesDel < 2 {
+		if nested {
 			continue
 		}
 		found = true
@@ -141,13 +154,12 @@ func runC09(p *Program, e *Engine, r *Result, tier string) {
 			wit = "the watch is not removed when " + stripIDs(ctr)
 		}
 		a.R.ob("C09.2", "move-self:removes-watch", "a record with IN_MOVE_SELF for a known non-recursive watch calls the removal function Remove uses (tables and inotify_rm_watch)", a.P.instrPos(call), h, wit)
-		// argument: path of this record's watch
 		arg := stripIDs(v.Ctx.path(call.Call.Args[len(call.Call.Args)-1]))
 		a.R.ob("C09.2", "move-self:own-path", "that removal is for the path of this record's watch", a.P.instrPos(call), arg == stripIDs(entryPath)+"."+pathF, "argument: "+tail(arg, 100))
 	}
 	if !found {
 		a.R.ob("C09.2", "move-self:removes-watch", "a record with IN_MOVE_SELF for a known non-recursive watch calls the removal function Remove uses (tables and inotify_rm_watch)", a.P.pos(df.Handler.Pos()), false,
-			"the handler calls no function shared with the API Remove that reaches both table deletes and inotify_rm_watch")
+			"below the handler no function is called that the API Remove also uses and that reaches both table deletes and inotify_rm_watch")
 	}
 	// (3) duplicate suppression consults Dir(watch.path)
 	sup := false
